@@ -85,6 +85,26 @@ def setup_interp(interp, con=None):
         box_vectors_to_lengths_and_angles=RepoSymbol(interp, "mdtraj/utils/unitcell.py", "box_vectors_to_lengths_and_angles"),
     )
     interp.import_models["mdtraj.utils.validation"] = utils
+
+    class _Registry:
+        """FormatRegistry.register_loader / register_fileobject are identity decorators that fill two dicts"""
+
+        def __init__(self):
+            self.loaders, self.fileobjects = {}, {}
+
+        def sym_getattr(self, interp_, name):
+            if name in ("loaders", "fileobjects"):
+                return getattr(self, name)
+            table = self.loaders if name == "register_loader" else self.fileobjects
+
+            def reg(ext):
+                def deco(f):
+                    table[ext] = f
+                    return f
+                return deco
+            return reg
+
+    interp.import_models["mdtraj.formats.registry"] = Namespace("registry", FormatRegistry=_Registry())
     interp.import_models["mdtraj.utils"] = utils
     interp.import_models["mdtraj.utils.unit"] = utils
     return interp
